@@ -1,8 +1,10 @@
 (* Run/RunC04.v — entry points of the C04 models.
    kinds: 401 walk verdicts of a tree with .gitignore files; 402 matched_path_or_any_parents of one file;
-          403 add_line (flags + rewritten glob text or error); 404 line_class (coverage of the line theorem) *)
+          403 add_line (flags + rewritten glob text or error); 404 line_class (coverage of the line theorem);
+          405 a documented bracket expression (Spec/GlobClassSyntax.v): its text, its documented meaning on probe
+              characters, and what the gitignore model makes of the line n<class>m on the paths n<probe>m *)
 From RG Require Import Base.Bytes Base.Val Model.Glob Model.GlobSet Spec.GlobSem Spec.GlobSetSem Model.Gitignore
-  Spec.GitSem Spec.GitGrammar Spec.GitLineClass.
+  Spec.GitSem Spec.GitGrammar Spec.GitLineClass Spec.GlobClassSyntax.
 
 (* split a '/'-joined relative path into its components ("" = no components) *)
 Fixpoint split_slash (s : bytes) (cur : bytes) : list bytes :=
@@ -49,11 +51,27 @@ Definition run_add_line (v : val) : val :=
 Definition run_line_class (v : val) : val :=
   of_bool (line_class (as_bool (fld 0 v)) (as_bytes (fld 1 v))).
 
+(* 405: (mark ((lo hi)...) dash_last probes), mark 0 = none, 1 = '!', 2 = '^'
+        -> (dclass_ok, line "n<class>m", documented meaning per probe, model verdict of the line on "n<probe>m") *)
+Definition decode_dclass (v : val) : dclass :=
+  mk_dclass (match as_N (fld 0 v) with 0%N => NegNone | 1%N => NegBang | _ => NegCaret end)
+            (map (fun m => (as_N (fld 0 m), as_N (fld 1 m))) (as_list (fld 1 v)))
+            (as_bool (fld 2 v)).
+Definition run_dclass_case (v : val) : val :=
+  let d := decode_dclass v in
+  let probes := as_bytes (fld 3 v) in
+  let line := 110%N :: render_dclass d ++ [109%N] in
+  let globs := add_lines false [line] in
+  VL [of_bool (dclass_ok d); of_bytes line;
+      VL (map (fun b => of_bool (dclass_admits d b)) probes);
+      VL (map (fun b => enc_verdict (matched_stripped re_spec globs [110%N; b; 109%N] false)) probes)].
+
 Definition entry (k : N) (v : val) : option val :=
   match k with
   | 401%N => Some (run_walk v)
   | 402%N => Some (run_one_file v)
   | 403%N => Some (run_add_line v)
   | 404%N => Some (run_line_class v)
+  | 405%N => Some (run_dclass_case v)
   | _ => None
   end.
